@@ -5,10 +5,15 @@ use super::super::{
     meta_subscriber::MoveSubscriber,
     meta_container::MoveContainer,
 };
+#[cfg(not(feature = "verif"))]
 use std::{fmt::Debug, sync::atomic::{
     AtomicU32,
     Ordering::{Relaxed, Release},
 }, ptr, cell::UnsafeCell, num::NonZeroU32, pin::Pin, mem::ManuallyDrop};
+#[cfg(feature = "verif")]
+use std::{fmt::Debug, sync::atomic::Ordering::{Relaxed, Release}, ptr, cell::UnsafeCell, num::NonZeroU32, pin::Pin, mem::ManuallyDrop};
+#[cfg(feature = "verif")]
+use crate::verif::AtomicU32;
 use crossbeam::utils::CachePadded;
 
 
